@@ -5,7 +5,7 @@
 From Coq Require Import List ZArith Bool.
 From SVC Require Import Base.AMap Base.Res Base.Dec Model.Types Model.Pricing
   Model.Handlers Model.EndBlock Model.Step Proofs.Inv Proofs.BankLemmas Proofs.StepSpecs_deposit
-  Proofs.TraceLemmas Proofs.TraceSettle Proofs.DecProofs Proofs.GapC02 Proofs.GapC02b.
+  Proofs.TraceLemmas Proofs.TraceSettle Proofs.DecProofs Proofs.GapC02 Proofs.GapC02b Proofs.GapC03.
 Import ListNotations.
 Open Scope Z_scope.
 
@@ -203,3 +203,20 @@ Print Assumptions C04_fraction_zero.
 Theorem C04_fraction_one : forall d, mul_trunc d ONE = d.
 Proof. exact DecProofs.mul_trunc_ONE. Qed.
 Print Assumptions C04_fraction_one.
+
+(* per step: several failures of the same provider in one block, supply falls by exactly the
+   slashed amounts (same statement as C03_deposit_falls_only_by_slash; vocabulary there) *)
+Theorem C04_step_slash_totals : forall cfg s o s',
+  handle cfg s o = Ok s' ->
+  ((exists dt, o = OEndBlock dt) \/ (exists r w c out v ok, o = ORespond r w c out v ok)) ->
+  exists d, log s' = d ++ log s
+    /\ Forall (fun e => 0 <= slash_any e /\ is_dep_move e = false) d
+    /\ (forall k, dep_at s' k = dep_at s k - slashed k d /\ 0 <= slashed k d <= slashed_all d)
+    /\ (forall k, has k (binds s') = has k (binds s))
+    /\ (forall k b, get k (binds s) = Some b ->
+          exists b', get k (binds s') = Some b' /\ b_owner b' = b_owner b /\ b_raw b' = b_raw b
+                     /\ b_qos b' = b_qos b /\ (b_avail b' = true -> b_avail b = true))
+    /\ supply s' = supply s - slashed_all d
+    /\ bal s' Deposit = bal s Deposit - slashed_all d.
+Proof. exact GapC03.deposit_falls_only_by_slash. Qed.
+Print Assumptions C04_step_slash_totals.
